@@ -36,7 +36,7 @@ TEXT.update({
 })
 TEXT.update({
  "C03": dict(
-  level="PARTIAL. Proved: the fragment half of designation (a JSON Pointer fragment resolves to exactly the location it spells and to nothing else, for every keyword/index/key). Modelled and tied by correspondence, not yet proved against a lexical specification: base-URI computation, resource and anchor scoping, the loader cache (loader-once), termination on reference cycles, never-a-panic. The resolver state machine is an executable Coq function (res/Resolve.v) compared with the package on generated universes: outcome class, reached target through unique markers, loader call sequence.",
+  level="PARTIAL. Proved: the fragment half of designation (a JSON Pointer fragment resolves to exactly the location it spells and to nothing else, for every keyword/index/key); over the resolver state machine: the Loader is asked at most once per URI (C03_loader_once: NoDup of the call log, for every schema, loader and budget), the Resolved is rooted at the schema given (C03_resolved_root), documents are only appended, resolution never panics and terminates on reference cycles between loaded documents (props/C10.v: Resolve_no_panic, Resolve_returns). Modelled and tied by correspondence, not proved against a lexical specification: base-URI computation, resource and anchor scoping. The resolver state machine is an executable Coq function (res/Resolve.v) compared with the package on generated universes: outcome class, reached target through unique markers, loader call sequence.",
   note="Trusted: net/url as transcribed in uri/Uri.v (validated against net/url on 3,000+ pairs per run); the generator's coverage of reference forms and topologies bounds what the correspondence can show.",
  ),
  "C17": dict(
@@ -80,8 +80,8 @@ TEXT.update({
 })
 TEXT.update({
  "C10": dict(
-  level="Theorem: the model's Validate returns Ok or Err (never Panic / OutOfFuel) whenever the specification defines a verdict, and an unsupported $schema is an error. Every explicit panic/assert site of the sources is accounted for by the obligation gen/ObPanics.v (regenerated on every run). All other entry points and the adversarial inputs are decided by correspondence: outcome classes (ok/err/panic/hang) of families ref, dyn, ptr, repr against the model, and the law 'every call returns' of family robust (arbitrary bytes, malformed Schema graphs, hostile loaders, odd Go values, recursive and unsupported types).",
-  note="Partial: totality proved for Validate only; the rest is differential/robustness testing with panic and hang detection.",
+  level="Theorems: C10_unmarshal_total (Unmarshal returns a schema or an error on every document; the budget always suffices); C10_resolve_no_panic (no internal lookup of the resolver - bases, resource URIs, the cache of loaded documents, the per-document location tables - can fail: the model's Panic branches are unreachable for every schema tree, base URI, regexp oracle and loader table) and C10_resolve_returns (with a budget above the length of the loader's table Resolve returns a Resolved or an error: a loaded document is cached before its references are followed, so self- and mutually-referential loader documents terminate; the tree walk's budget size(s) always suffices, children_size generated for all 19 subschema-holding fields); C10_validate_returns (Validate returns Ok or Err whenever the specification defines a verdict) and an unsupported $schema is an error. Every explicit panic/assert site of the sources is accounted for by the obligation gen/ObPanics.v (regenerated on every run). For, ApplyDefaults on odd Go values and the adversarial inputs are decided by correspondence: outcome classes (ok/err/panic/hang) of families ref, dyn, ptr, repr against the model, and the law 'every call returns' of family robust (arbitrary bytes, malformed Schema graphs, hostile loaders, odd Go values, recursive and unsupported types).",
+  note="Partial: totality is proved for Unmarshal, Resolve and (where the specification is defined) Validate on tree-shaped schemas; pointer graphs with sharing/cycles, For on recursive types and reflection over odd Go values are covered by robustness testing with panic and hang detection.",
  ),
 })
 TEXT.update({
